@@ -457,6 +457,18 @@ func (f *c08Filter) eval(e *c08Expr, env map[string]c08V, depth int) (c08V, bool
 		case "-":
 			r = a.n - b.n
 		case "*":
+			// operands are bounded by c08MaxMag (2^40): the product must be checked before it can wrap
+			ua, ub := a.n, b.n
+			if ua < 0 {
+				ua = -ua
+			}
+			if ub < 0 {
+				ub = -ub
+			}
+			if ua != 0 && ub > c08MaxMag/ua {
+				f.ok = false
+				return c08V{}, false
+			}
 			r = a.n * b.n
 		case "<":
 			if a.n < b.n {
@@ -2029,6 +2041,9 @@ func (sh *c08Shrinker) shrink(v *c08Variant, aspect string, limit int) (*c08Vari
 				}
 				for _, rep := range cands {
 					rep := rep
+					if rep.Kind == "kw" {
+						continue // a keyword is only meaningful in an argument list
+					}
 					k = 0
 					nroot := c08Rewrite(root, &k, t, func(*c08Expr) *c08Expr { return rep })
 					cand := append([]c08Step{}, cur...)
